@@ -195,6 +195,20 @@ def replyAuthMeta (d : List Nat) : List Nat :=
   | .ok x => x.take metadataLen
   | .panic _ => []
 
+/-- Reply to an SCMP echo / traceroute request: same layer with the reply type, code 0,
+    payload echoed; the request's traffic class; no extension headers. -/
+def scmpReply (p : Pkt) (fixed : Bool) (t rt : Nat) (rp : List Nat) : Reply :=
+  { mkReply p fixed rt rp with
+    l4 := .scmp (if t = scmpEchoRequest then scmpEchoReply else scmpTracerouteReply) 0 }
+
+/-- Reply to an accepted NTP request. -/
+def ntpReply (cfg : Cfg) (p : Pkt) (fixed authenticated : Bool) (rt : Nat) (rp : List Nat) : Reply :=
+  { mkReply p fixed rt rp with
+    tc := tcOfDscp cfg.dscp, l4 := .udp,
+    srcPort := p.dstPort, dstPort := p.srcPort,
+    auth := if authenticated then (p.auth.map replyAuthMeta) else none,
+    payload := .ntpResponse }
+
 /-- One iteration of the receive loop after a successful `DecodeLayers`. -/
 def handleG (fixed : Bool) (cfg : Cfg) (p : Pkt) : Outcome :=
   match p.l4 with
@@ -203,9 +217,7 @@ def handleG (fixed : Bool) (cfg : Cfg) (p : Pkt) : Outcome :=
     if t = scmpEchoRequest ∨ t = scmpTracerouteRequest then
       match p.rev with
       | none => if fixed then .drop "reverse" else .panic "explicit:reverse"
-      | some (rt, rp) =>
-        .reply { mkReply p fixed rt rp with
-                 l4 := .scmp (if t = scmpEchoRequest then scmpEchoReply else scmpTracerouteReply) 0 }
+      | some (rt, rp) => .reply (scmpReply p fixed t rt rp)
     else .drop "scmp-type"
   | .udp =>
     if !p.udpLenOk then .drop "udp-length"
@@ -226,12 +238,7 @@ def handleG (fixed : Bool) (cfg : Cfg) (p : Pkt) : Outcome :=
         else
           match p.rev with
           | none => if fixed then .drop "reverse" else .panic "explicit:reverse"
-          | some (rt, rp) =>
-            .reply { mkReply p fixed rt rp with
-                     tc := tcOfDscp cfg.dscp, l4 := .udp,
-                     srcPort := p.dstPort, dstPort := p.srcPort,
-                     auth := if authenticated then (p.auth.map replyAuthMeta) else none,
-                     payload := .ntpResponse }
+          | some (rt, rp) => .reply (ntpReply cfg p fixed authenticated rt rp)
 
 /-- The code as found. -/
 def handleOld : Cfg → Pkt → Outcome := handleG false
